@@ -323,6 +323,53 @@ fn do_contend(f: &[&str]) -> String {
     format!("{} | alone={}", out.join(" | "), msgs.join(","))
 }
 
+fn do_crossdir(f: &[&str]) -> String {
+    // crossdir <seq|par> <rounds> (<xdir> <xfile>)...: failures located by (manifest dir, file!() string) pairs that may
+    // share the file!() string across different manifest dirs (two packages both failing in "src/lib.rs").
+    // seq: one warm process history: every report formatted in the given order, `rounds` times over, cache never cleared;
+    // par: per round the cache is cleared and all reports are formatted at once behind a barrier.
+    // Prints per round whether each message equals the message of the same failure formatted alone from an empty cache.
+    let par = f[1] == "par";
+    let rounds: usize = f[2].parse().unwrap();
+    let pairs: Vec<(String, String)> = f[3..].chunks(2).map(|c| (unhex_s(c[0]), unhex_s(c[1]))).collect();
+    let _g = PlainOutputGuard::new();
+    let mut alone = Vec::new();
+    for (i, (d, file)) in pairs.iter().enumerate() {
+        verif::clear_source_cache();
+        alone.push(render(&c17_report(d, file, i)));
+    }
+    verif::clear_source_cache();
+    let mut out = Vec::new();
+    for _ in 0..rounds {
+        let msgs: Vec<String> = if par {
+            verif::clear_source_cache();
+            let barrier = std::sync::Arc::new(std::sync::Barrier::new(pairs.len()));
+            let hs: Vec<_> = pairs
+                .iter()
+                .cloned()
+                .enumerate()
+                .map(|(i, (d, file))| {
+                    let b = barrier.clone();
+                    std::thread::spawn(move || {
+                        let _g = PlainOutputGuard::new();
+                        let r = c17_report(&d, &file, i);
+                        b.wait();
+                        render(&r)
+                    })
+                })
+                .collect();
+            hs.into_iter().map(|h| h.join().unwrap()).collect()
+        } else {
+            pairs.iter().enumerate().map(|(i, (d, file))| render(&c17_report(d, file, i))).collect()
+        };
+        let same: String = msgs.iter().zip(alone.iter()).map(|(m, a)| if m == a { '1' } else { '0' }).collect();
+        out.push(same);
+    }
+    let _ = verif::take_cache_log();
+    let msgs: Vec<String> = alone.iter().map(|m| hex(m.as_bytes())).collect();
+    format!("{} | alone={}", out.join(","), msgs.join(","))
+}
+
 fn do_colour(f: &[&str]) -> String {
     // colour <ops|-> <xdir> <xfile>: one report formatted after a history of guard operations
     // (N = new, D = drop newest, F = drop oldest; `-` = none) with the surviving guards alive; the
@@ -406,10 +453,11 @@ fn main() {
             "guard" => do_guard(&f),
             "contend" => do_contend(&f),
             "colour" => do_colour(&f),
+            "crossdir" => do_crossdir(&f),
             "c17file" => {
                 // c17file <xname> <xcontent|none>: (re)create or remove a file under RT_TMP/c17
                 let p = c17_dir().join(unhex_s(f[1]));
-                std::fs::create_dir_all(c17_dir()).unwrap();
+                std::fs::create_dir_all(p.parent().unwrap()).unwrap();
                 let _ = std::fs::remove_file(&p);
                 if f[2] != "none" {
                     std::fs::write(&p, unhex(f[2])).unwrap();
